@@ -16,7 +16,7 @@ RULE = ('Hypothesis-generated documents of every transaction map: valid, singly 
         'segment id, position, element[:component] position, data element number, code and value. Non-trivial = >=2 sets and >=1 '
         'error, or >=2 groups; distinct by digest of the text.')
 ASSUMPTIONS = ['counts of groups/sets come from the reference tokeniser applied to the input text', 'inputs are complete interchanges (validation completes)',
-               'offending values in this check contain no acknowledgement delimiter (C06 covers those)']
+               'an offending value that contains an acknowledgement delimiter must still be itemised (position, code) but its echo is not compared']
 
 AK3_CODES = {'1', '2', '3', '4', '5', '6', '7', '8'}
 AK4_CODES = {'1', '2', '3', '4', '5', '6', '7', '8', '9', '10'}
@@ -83,6 +83,10 @@ def check_case(case):
     f = meta.get('file', '?')
     o = observe.run_validator(text, ack=True)
     out.classes = ['map:' + f, 'faults:%d' % len(meta.get('faults', [])), 'shape:%d/%d/%d' % (meta.get('nisa', 0), meta.get('ngroups', 0), meta.get('nsets', 0))]
+    if meta.get('delims'):
+        out.classes.append('non-default-source-delimiters')
+    if meta.get('hostile'):
+        out.classes.append('hostile-echo')
     if o.exc is not None:
         # totality is C07's business; here the case simply does not qualify ("inputs for which validation completes")
         out.classes.append('did-not-complete')
@@ -214,11 +218,22 @@ def run_entry(entry, n, seed, acc, tier, checker=None, **gkw):
     @st.composite
     def case(draw):
         ch = docgen.HypChooser(draw)
-        res = genfaulty.build(entry, ch, acc, **gkw)
+        kw = dict(gkw)
+        delims = None
+        if ch.chance(.25):
+            # source with other delimiters whose offending values carry the acknowledgement's own ~ * :
+            delims = ch.choice([('|', '!', '>', '`'), ('\n', '|', '\\', '`'), ('\x1c', '\x1d', '\x1e', '\x1f')])
+            kw.update(avoid=''.join(delims), hostile_values=['A~B', 'A*B', 'A:B', 'X*Y*Z', 'P:Q'], flavor='punct',
+                      kinds=['too-long', 'not-in-code-list', 'wrong-char-class', 'extra-element', 'too-short', 'bad-date', 'required-removed'])
+        res = genfaulty.build(entry, ch, acc, **kw)
         if res is None:
             return {'skip': 'genfail'}
         doc, exps = res
-        return {'text': doc.text(), 'meta': genfaulty.meta_of(doc, exps)}
+        meta = genfaulty.meta_of(doc, exps)
+        if delims:
+            meta['delims'] = list(delims)
+            return {'text': doc.text(term=delims[0], ele=delims[1], sub=delims[2], rep=delims[3], eol='' if delims[0] == '\n' else '\n'), 'meta': meta}
+        return {'text': doc.text(), 'meta': meta}
 
     def chk(c):
         if 'skip' in c:
